@@ -705,8 +705,10 @@ def exp_scalar(ctx, x):
     x = S.num(x)
     if S.is_concrete(x) and S.is_zero(x):
         return 1
-    e = EXP(S.zreal(x))
-    ctx.assume(e > 0, 'axiom:exp(x)>0')
+    xr = S.zreal(x)
+    e = EXP(xr)
+    ctx.assume(z3.And(e > 0, z3.Implies(xr > 0, e > 1), z3.Implies(xr < 0, e < 1), z3.Implies(xr == 0, e == 1)),
+               'axiom:exp(x)>0, exp(x)>1 for x>0, exp(x)<1 for x<0, exp(0)=1')
     return e
 
 
